@@ -40,3 +40,65 @@ Definition mentions (k : N) (t : triple) : Prop := In k (triple_blanks t).
 (* a concrete supply satisfying the freshness law: count upwards from above every old id *)
 Definition max_id (l : list N) : N := fold_right N.max 0%N l.
 Definition counter_supply (old : list N) : nat -> N := fun i => (1 + max_id old + N.of_nat i)%N.
+
+(* ---------------------------------------------------------------- the store as a map name -> set, and the effect
+   of a statement stated on that view *)
+Definition sstore := str -> option (triple -> Prop).
+Definition abs (st : store) : sstore := fun g => match get st g with Some l => Some (fun t => In t l) | None => None end.
+
+Definition same_set (a b : option (triple -> Prop)) : Prop :=
+  match a, b with
+  | None, None => True
+  | Some P, Some Q => forall t, P t <-> Q t
+  | _, _ => False
+  end.
+
+Inductive effect :=
+| Eff_none
+| Eff_write (add : bool) (gs : list str) (ts : list triple)
+| Eff_create (gs : list str)
+| Eff_drop (gs : list str).
+
+Definition written (add : bool) (ts : list triple) (P : triple -> Prop) : triple -> Prop :=
+  fun t => if add then P t \/ In t ts else P t /\ ~ In t ts.
+
+Definition apply_effect (e : effect) (a b : sstore) : Prop :=
+  match e with
+  | Eff_none => forall g, same_set (b g) (a g)
+  | Eff_write add gs ts =>
+      forall g, (In g gs -> match a g with Some P => same_set (b g) (Some (written add ts P)) | None => b g = None end) /\
+                (~ In g gs -> same_set (b g) (a g))
+  | Eff_create gs =>
+      forall g, match a g with
+                | Some P => same_set (b g) (Some P)
+                | None => (In g gs -> same_set (b g) (Some (fun _ => False))) /\ (~ In g gs -> b g = None)
+                end
+  | Eff_drop gs => forall g, (In g gs -> b g = None) /\ (~ In g gs -> same_set (b g) (a g))
+  end.
+
+Definition init_names (s : stmt) : list str :=
+  match s with
+  | SConstruct _ _ outs ins _ _ _ => ins ++ outs
+  | SSelect ins _ _ _ => ins
+  | _ => []
+  end.
+
+(* what a statement does to the store it is executed on: nothing when it is rejected (static checks, Init) or only
+   reads; union / difference of the listed triples, resp. of the triples the template yields for the rows *)
+Definition effect_of (st : store) (s : stmt) : effect :=
+  if negb (static_ok s) || negb (forallb (has st) (init_names s)) then Eff_none else
+  match s with
+  | SCreate gs => Eff_create gs
+  | SDrop gs => Eff_drop gs
+  | SInsert gs ts => Eff_write true gs ts
+  | SDelete gs ts => Eff_write false gs ts
+  | SConstruct add tmpl outs _ _ q draw =>
+      if q_ok q then Eff_write add outs (fst (produce (output_bindings tmpl) tmpl (q_rows q) draw 0)) else Eff_none
+  | _ => Eff_none
+  end.
+
+(* a run of a statement list in which every step has the stated effect *)
+Inductive follows (bulk : nat) : store -> list stmt -> store -> Prop :=
+| F_nil : forall st, follows bulk st [] st
+| F_cons : forall st s st1 ss st2, apply_effect (effect_of st s) (abs st) (abs st1) ->
+    follows bulk st1 ss st2 -> follows bulk st (s :: ss) st2.
